@@ -136,6 +136,23 @@ func monC04(c *drv.Ctx) {
 		cs.C.Obs("error-position cases", 1)
 	})
 
+	// (3b) long but finite runs of empty reads between chunks (any fragmentation must be tolerated;
+	// 100 or more consecutive empty reads count as "no progress" and are exercised in stage 4)
+	c.Stage("zero-runs", 99*4, true, func(cs *drv.Case) {
+		run := int(cs.Idx%99) + 1
+		sched := []int{doubles.SchedOne, doubles.SchedSmall, doubles.SchedBuf, doubles.SchedRandom}[cs.Idx/99]
+		ops := []rOp{{Kind: opNext, N: 3}, {Kind: opPeek, N: 10}, {Kind: opReadBinary, N: 9}, {Kind: opSkip, N: 5}, {Kind: opRelease}, {Kind: opNext, N: 40}}
+		if sched != doubles.SchedOne {
+			ops = append(ops, rOp{Kind: opNext, N: 9000}, rOp{Kind: opReadBinary, N: 5000})
+		}
+		need := sumOps(ops)
+		spec := srcSpec{Len: need + 20, ErrAt: need + 20, Sched: sched, ZeroRun: run, WithData: cs.Idx%2 == 0}
+		cs.Desc = M{"ops": opsString(ops), "source": spec.desc()}
+		runReaderHistory(cs, ops, spec, readerOpts{})
+		cs.Count(true, "zerorun", run, sched)
+		cs.C.ObsMax("max_zero_run_tolerated", int64(run))
+	})
+
 	// (4) no-progress source: (0, nil) forever from some position on
 	c.Stage("no-progress", c.Pick(400, 20000), false, func(cs *drv.Case) {
 		r := cs.R
